@@ -57,7 +57,7 @@ restart and restart-time resets). -/
 theorem finished_fork_stays_finished {g : List NodeInfo} {s : State} {e : Ev} {n f : Nat}
     (hr : Reach g s) (hen : enabled s e = true) (h : fmDone s n f = true) :
     fmDone (apply s e) n f = true :=
-  fmDone_stable (reach_objsInv hr) hen h
+  fmDone_stable (reach_objsInv hr) (reach_full hr) hen h
 
 /-- only objects that exist are run: the fork is in the node's fork list and a
 chunk index is below the number of chunks the split defined -/
